@@ -76,7 +76,10 @@ Record bus_st := mkBus { b_baud : Z; b_builder : list Z; b_attrs : list Z }.
 (* a signal as the exporters read it: handles of its type / unit / enum (-1 = none) and its
    attribute assignments.  Types, units, enums and attributes are SHARED between the signals,
    messages and buses of a network: every per-bus worker of ExportNetwork reads them. *)
-Record sig_st := mkSig { s_type : Z; s_unit : Z; s_enum : Z; s_attrs : list Z }.
+Record sig_st := mkSig {
+  s_type : Z; s_unit : Z; s_enum : Z; s_attrs : list Z;
+  s_groups : list (list Z) }.    (* multiplexer signal: the signal handles of its groups (the groups' own
+                                    slices, handed out uncopied by GetSignalGroups); [] otherwise *)
 
 Record shared_st := mkShared {
   sigs  : list sig_st;           (* signal handle = position *)
@@ -192,6 +195,7 @@ Inductive mut_op :=
 | MNewUnit (symbol : Z)                 (* NewSignalUnit *)
 | MNewAttrDef (fields : list Z)         (* New*Attribute *)
 | MNewSig (ty un : Z)                   (* NewStandardSignal (+ SetUnit) *)
+| MNewMux (groups : list (list Z))      (* NewMultiplexerSignal + InsertSignal of existing signals into its groups *)
 | MSigAssignAttr (sg : nat) (a : Z)
 | MMsgAssignAttr (m : nat) (a : Z)
 | MMsgAddRecv (m n i : nat).            (* Message.AddReceiver *)
@@ -309,7 +313,7 @@ Definition mstep (s : state) (op : mut_op) : state * list Z :=
   | MEnumAddRef e sg room inmsg =>
       (* the new enum signal also enters the signal table (the harness numbers signals by position) *)
       (add_sig (set_enums s (upd_nth e (fun x => set_erefs x (e_refs x ++ [mkRef sg room inmsg])) (enums s)))
-               (mkSig (-1) (-1) (Z.of_nat e) []), OK)
+               (mkSig (-1) (-1) (Z.of_nat e) [] []), OK)
   | MEnumDelRef e sg =>
       (set_enums s (upd_nth e (fun x => set_erefs x (filter (fun r => negb (r_sig r =? sg)) (e_refs x))) (enums s)), OK)
   | MEnumAddValue e v idx push_fail =>
@@ -382,10 +386,11 @@ Definition mstep (s : state) (op : mut_op) : state * list Z :=
       (set_shared s (mkShared (sigs (shared s)) (types (shared s)) (units (shared s) ++ [sym]) (adefs (shared s))), OK)
   | MNewAttrDef fields =>
       (set_shared s (mkShared (sigs (shared s)) (types (shared s)) (units (shared s)) (adefs (shared s) ++ [fields])), OK)
-  | MNewSig ty un => (add_sig s (mkSig ty un (-1) []), OK)
+  | MNewSig ty un => (add_sig s (mkSig ty un (-1) [] []), OK)
+  | MNewMux groups => (add_sig s (mkSig (-1) (-1) (-1) [] groups), OK)
   | MSigAssignAttr sg a =>
       (set_shared s (mkShared (upd_nth sg (fun x => mkSig (s_type x) (s_unit x) (s_enum x)
-                                                     (if zmem a (s_attrs x) then s_attrs x else s_attrs x ++ [a]))
+                                                     (if zmem a (s_attrs x) then s_attrs x else s_attrs x ++ [a]) (s_groups x))
                                        (sigs (shared s)))
                               (types (shared s)) (units (shared s)) (adefs (shared s))), OK)
   | MMsgAssignAttr m a =>
@@ -431,7 +436,10 @@ Inductive ro_op :=
 | RSigAttrs (sg : nat)               (* Signal.AttributeAssignments(): copy, sorted *)
 | RTypeFields (t : nat)              (* SignalType fields read by the exporters (shared) *)
 | RUnitFields (u : nat)              (* SignalUnit symbol (shared) *)
-| RAttrDef (a : nat).                (* Attribute definition: type, default, bounds (shared) *)
+| RAttrDef (a : nat)                 (* Attribute definition: type, default, bounds (shared) *)
+| RSigGroups (sg : nat)              (* MultiplexerSignal.GetSignalGroups(): the groups' own slices *)
+| RMsgFields (m : nat)               (* Message: ID, Priority, SizeByte, CycleTime *)
+| RNetBuses.                         (* Network.Buses(): copy, sorted by name *)
 
 Definition enc (n i : nat) : Z := Z.of_nat n * 1024 + Z.of_nat i.
 Definition dec_n (z : Z) : nat := Z.to_nat (z / 1024).
@@ -577,6 +585,13 @@ Definition ro (s : state) (q : ro_op) : state * list Z :=
       (s, match nth_error (units (shared s)) u with Some sym => [sym] | None => ERR [] end)
   | RAttrDef a =>
       (s, match nth_error (adefs (shared s)) a with Some f => f | None => ERR [] end)
+  | RSigGroups sg =>
+      (s, match nth_error (sigs (shared s)) sg with
+          | Some x => flat_map (fun g => g ++ [-1]) (s_groups x)
+          | None => ERR [] end)
+  | RMsgFields m =>
+      (s, match nth_error (msgs s) m with Some x => [m_id x; m_prio x; m_bytes x; m_cycle x] | None => ERR [] end)
+  | RNetBuses => (s, map Z.of_nat (seq 0 (length (buses s))))
   end.
 
 (* ---------------------------------------------------------------- histories *)
@@ -669,36 +684,82 @@ Definition attr_body (a : Z) (acc : list (list Z)) (k : list (list Z) -> prog) :
 Definition opt_call (h : Z) (mk : nat -> ro_op) (acc : list (list Z)) (k : list (list Z) -> prog) : prog :=
   if 0 <=? h then Call (mk (Z.to_nat h)) (fun o => k (acc ++ [o])) else k acc.
 
-Definition sig_body (m : nat) (sz : Z) (acc : list (list Z)) (k : list (list Z) -> prog) : prog :=
-  Call (RSigAttrs (Z.to_nat sz)) (fun sa =>
-  foreach sa attr_body (acc ++ [sa]) (fun acc1 =>
-  Call (RMsgRecv m) (fun rc =>
-  Call (RSigFields (Z.to_nat sz)) (fun f =>
-  opt_call (nth 0 f (-1)) RTypeFields (acc1 ++ [rc; f]) (fun acc2 =>
-  opt_call (nth 1 f (-1)) RUnitFields acc2 (fun acc3 =>
-  opt_call (nth 2 f (-1)) REnumValues acc3 k)))))).
+(* what a walker reads besides the structure itself: the DBC exporter reads attributes, CAN-IDs and
+   receivers; the Markdown exporter CAN-IDs and receivers but no attributes; the saver attributes and
+   receivers and the raw ids; String the raw fields and receivers *)
+Record walk_cfg := mkCfg { w_attrs : bool; w_canid : bool; w_recv : bool }.
 
-Definition msg_body (mz : Z) (acc : list (list Z)) (k : list (list Z) -> prog) : prog :=
+Definition attrs_of (cfg : walk_cfg) (q : ro_op) (acc : list (list Z)) (k : list (list Z) -> prog) : prog :=
+  if w_attrs cfg then Call q (fun al => foreach al attr_body (acc ++ [al]) k) else k acc.
+
+(* a signal: attributes, the receivers of its message (the exporters ask per signal), its shared
+   type / unit / enum and, for a multiplexer signal, the signals of its groups, recursively (fuel =
+   nesting depth walked; the harness nests 3 deep) *)
+Fixpoint sig_walk (fuel : nat) (cfg : walk_cfg) (m : nat) (sz : Z) (acc : list (list Z))
+         (k : list (list Z) -> prog) : prog :=
+  match fuel with
+  | O => k acc
+  | S fu =>
+      let sg := Z.to_nat sz in
+      attrs_of cfg (RSigAttrs sg) acc (fun acc1 =>
+      (if w_recv cfg then (fun kk => Call (RMsgRecv m) (fun rc => kk (acc1 ++ [rc]))) else (fun kk => kk acc1)) (fun acc1r =>
+      Call (RSigFields sg) (fun f =>
+      opt_call (nth 0 f (-1)) RTypeFields (acc1r ++ [f]) (fun acc2 =>
+      opt_call (nth 1 f (-1)) RUnitFields acc2 (fun acc3 =>
+      opt_call (nth 2 f (-1)) REnumValues acc3 (fun acc4 =>
+      Call (RSigGroups sg) (fun gs =>
+      foreach (filter (fun z => 0 <=? z) gs) (sig_walk fu cfg m) (acc4 ++ [gs]) k)))))))
+  end.
+
+Definition walk_depth : nat := 4.
+
+Definition msg_walk (cfg : walk_cfg) (mz : Z) (acc : list (list Z)) (k : list (list Z) -> prog) : prog :=
   let m := Z.to_nat mz in
-  Call (RMsgCanID m) (fun o3 =>
-  Call (RMsgAttrs m) (fun ma =>
-  foreach ma attr_body (acc ++ [o3; ma]) (fun acc1 =>
+  Call (if w_canid cfg then RMsgCanID m else RMsgFields m) (fun o3 =>
+  attrs_of cfg (RMsgAttrs m) (acc ++ [o3]) (fun acc1 =>
   Call (RMsgSignals m) (fun ss =>
-  foreach ss (sig_body m) (acc1 ++ [ss]) k)))).
+  foreach ss (sig_walk walk_depth cfg m) (acc1 ++ [ss]) k))).
 
-Definition export_bus_prog (b : nat) : prog :=
+Definition bus_walk (cfg : walk_cfg) (bz : Z) (acc : list (list Z)) (k : list (list Z) -> prog) : prog :=
+  let b := Z.to_nat bz in
   Call (RBusFields b) (fun o0 =>
-  Call (RBusAttrs b) (fun ba =>
-  foreach ba attr_body [o0; ba] (fun acc0 =>
+  attrs_of cfg (RBusAttrs b) (acc ++ [o0]) (fun acc0 =>
   Call (RBusNodes b) (fun nis =>
   foreach nis
-    (fun ni acc k =>
+    (fun ni acc k' =>
        Call (RNodeFields (dec_n ni)) (fun o1 =>
-       Call (RNodeAttrs (dec_n ni)) (fun o2 =>
-       foreach o2 attr_body (acc ++ [o1; o2]) (fun acc1 =>
+       attrs_of cfg (RNodeAttrs (dec_n ni)) (acc ++ [o1]) (fun acc1 =>
        Call (RSentMsgs (dec_n ni) (dec_i ni)) (fun ms =>
-       foreach ms msg_body acc1 k)))))
-    acc0 (fun acc => Done acc))))).
+       foreach ms (msg_walk cfg) acc1 k'))))
+    acc0 k))).
+
+(* exporter.exportBus (exporter.go), with every read of SHARED state it performs: bus fields and
+   attribute assignments + their definitions, NodeInterfaces(); per interface the node, its
+   attributes + definitions, SentMessages(); per message GetCANID, attributes + definitions,
+   Signals(); per signal attributes + definitions, parMsg.Receivers(), kind / type / unit / enum, the
+   type's fields, the unit's symbol, the enum's Values(), the groups of a multiplexer (recursively).
+   `acc` is the worker's private dbc.File under construction.  (The value tables written at the end
+   re-read Values() of the enums met on the way: same read set.) *)
+Definition cfg_dbc : walk_cfg := mkCfg true true true.
+Definition export_bus_prog (b : nat) : prog := bus_walk cfg_dbc (Z.of_nat b) [] (fun acc => Done acc).
+
+(* whole-network walkers: Network.Buses() then every bus *)
+Definition net_walk (cfg : walk_cfg) : prog :=
+  Call RNetBuses (fun bs => foreach bs (bus_walk cfg) [bs] (fun acc => Done acc)).
+
+(* md_exporter.exportNetwork: table of contents and bus sections (bus, interfaces, messages with CAN-ID and
+   receivers, signals with type / unit / enum and multiplexer groups); no attributes.  The appendix
+   lists the types / units / enums met on the way (same read set). *)
+Definition cfg_md : walk_cfg := mkCfg false true true.
+Definition export_md_prog : prog := net_walk cfg_md.
+(* saver.saveNetwork: everything with raw ids, attributes and receivers; the referenced builders,
+   nodes, types, units, enums and attributes are saved from the objects met on the way *)
+Definition cfg_save : walk_cfg := mkCfg true false true.
+Definition save_prog : prog := net_walk cfg_save.
+(* Network.String(): stringify of buses, interfaces, messages (receivers), signals, types / units /
+   enums; attribute assignments are printed through AttributeAssignments() too *)
+Definition cfg_string : walk_cfg := mkCfg true false true.
+Definition net_string_prog : prog := net_walk cfg_string.
 
 Definition export_bus (s : state) (b : nat) : list (list Z) := eval s (export_bus_prog b).
 
